@@ -274,7 +274,9 @@ fn signal_scenario(name: &str) -> Result<String, String> {
             }
             drop(conn.take());
         }
-        let deadline = Instant::now() + BOUND;
+        // a forced stop (SIGINT, SIGQUIT) does not wait for the held connection: 10 s stand for "waits" (shutdown_timeout is 30 s)
+        let limit = if graceful { BOUND } else { Duration::from_secs(10) };
+        let deadline = Instant::now() + limit;
         loop {
             if let Some(st) = ch.try_wait().map_err(|e| e.to_string())? {
                 let mut rest = String::new();
@@ -285,7 +287,7 @@ fn signal_scenario(name: &str) -> Result<String, String> {
                 return Ok(format!("exit_ms={}", t0.elapsed().as_millis()));
             }
             if Instant::now() > deadline {
-                return Err("child did not exit within 30 s of the signal".to_string());
+                return Err(format!("child did not exit within {} s of the signal", limit.as_secs()));
             }
             std::thread::sleep(Duration::from_millis(20));
         }
